@@ -1216,11 +1216,19 @@ func main() {
 	nOverride := flag.Int("n", 0, "number of cases (0: by tier)")
 	par := flag.Int("par", 4, "controlled cases run in parallel")
 	in := flag.String("in", "", "replay: JSON file holding Caps and OpsJ of one controlled case")
+	budget := flag.Int("budget", 0, "seconds after which no further case is started (0: 240 quick, 1800 thorough); only a misbehaving Stopper makes a run that long")
 	flag.Parse()
 
 	sc := log.ScopeWithoutShowLogs(logT{})
 	defer sc.Close(logT{})
 	rng := vh.Rng(*seed)
+	if *budget == 0 {
+		*budget = 240
+		if *tier == "thorough" {
+			*budget = 1800
+		}
+	}
+	deadline := time.Now().Add(time.Duration(*budget) * time.Second)
 
 	if *mode == "free" {
 		n := 120
@@ -1234,7 +1242,7 @@ func main() {
 		var items []string
 		hangs, nev, npan := 0, 0, 0
 		distinct := map[string]bool{}
-		for i := 0; i < n; i++ {
+		for i := 0; i < n && time.Now().Before(deadline); i++ {
 			c := runFree(rng.Int63())
 			if c.Hang {
 				hangs++
@@ -1252,7 +1260,7 @@ func main() {
 		vh.WriteFile(*out, "cases.v", "Definition free_cases : list free_case := "+vh.ListNL(items)+".\n")
 		vh.WriteJSON(*out, "cases.json", map[string]interface{}{"free": cases})
 		vh.WriteJSON(*out, "summary.json", map[string]interface{}{
-			"free": len(cases), "hangs": hangs, "panics": npan, "events": nev, "distinct_nontrivial": len(distinct),
+			"free": len(cases), "planned": n, "hangs": hangs, "panics": npan, "events": nev, "distinct_nontrivial": len(distinct),
 			"samples": []interface{}{cases[0]},
 		})
 		return
@@ -1317,7 +1325,7 @@ func main() {
 			defer wg.Done()
 			for {
 				i := int(atomic.AddInt32(&next, 1))
-				if i >= n {
+				if i >= n || !time.Now().Before(deadline) {
 					return
 				}
 				cases[i] = runCtl(jobs[i].caps, jobs[i].ops)
@@ -1330,6 +1338,16 @@ func main() {
 	var items []string
 	distinct := map[string]bool{}
 	kinds := map[string]int{}
+	// cases not run because the time budget was used up (never on a sane Stopper)
+	planned := n
+	for len(cases) > 0 && cases[len(cases)-1].Caps == nil {
+		cases = cases[:len(cases)-1]
+	}
+	for i := range cases {
+		if cases[i].Caps == nil {
+			cases[i] = ctlCase{Caps: jobs[i].caps, Stuck: true, StuckAt: "not run: time budget used up"}
+		}
+	}
 	nops, racing, timed, maxOps, npan := 0, 0, 0, 0, 0
 	for i, c := range cases {
 		if len(c.Panics) > 0 || c.Stuck {
@@ -1361,7 +1379,7 @@ func main() {
 		}
 	}
 	vh.WriteJSON(*out, "summary.json", map[string]interface{}{
-		"ctl": len(cases), "ops": nops, "max_ops": maxOps, "racing": racing, "settle_timeouts": timed, "panics": npan,
+		"ctl": len(cases), "planned": planned, "ops": nops, "max_ops": maxOps, "racing": racing, "settle_timeouts": timed, "panics": npan,
 		"op_kinds": kinds, "distinct_nontrivial": len(distinct), "late_worker_replay": lateWorker(),
 		"samples": []interface{}{map[string]interface{}{"caps": cases[si].Caps, "ops": cases[si].Ops,
 			"observations": len(cases[si].Obs), "events": cases[si].Events}},
